@@ -12,7 +12,11 @@ CONSTANT PadFix
 
 HasOverAligned == \E j \in DOMAIN Decl.fields : Decl.fields[j].align > MaxGuaranteedAlign
 (* #pragma pack / packed union with a member aligned to 16 (long double): known findings of C02 *)
-KnownClass == HasOverAligned /\ (pack > 0 \/ (kind = "union" /\ packed))
+(* packed / #pragma pack record that also carries aligned(N), on the type or on a member (two attributes:        *)
+(* thorough tier): repr(packed) and repr(align) together (E0587), or the pack is lost and members move -          *)
+(* recorded finding C02 packed-with-aligned                                                                       *)
+PackedAlignedMember == (packed \/ pack > 0) /\ (malign > 0 \/ aligned > 0)
+KnownClass == (HasOverAligned /\ (pack > 0 \/ (kind = "union" /\ packed))) \/ PackedAlignedMember
 
 L3 == \A force \in BOOLEAN, ru \in (IF kind = "union" THEN BOOLEAN ELSE {FALSE}) :
         Agrees(Decl, EmitRec(Decl, force, ru, PadFix)) \/ KnownClass
